@@ -357,6 +357,7 @@ impl NodePersistence for RecordingStore {
     }
 
     fn put_value(&mut self, id: u64, value: &[u8]) -> Result<(), StoreError> {
+        eager_drain();
         log(json!({"e": "store", "op": "put", "item": self.name_of(id), "body": txt(value)}));
         self.0.lock().values.insert(id, value.to_vec());
         Ok(())
@@ -369,18 +370,21 @@ impl NodePersistence for RecordingStore {
     }
 
     fn update_map(&mut self, id: u64, key: &[u8], value: &[u8]) -> Result<(), StoreError> {
+        eager_drain();
         log(json!({"e": "store", "op": "upd", "item": self.name_of(id), "key": txt(key), "body": txt(value)}));
         self.0.lock().maps.entry(id).or_default().insert(key.to_vec(), value.to_vec());
         Ok(())
     }
 
     fn remove_map(&mut self, id: u64, key: &[u8]) -> Result<(), StoreError> {
+        eager_drain();
         log(json!({"e": "store", "op": "rem", "item": self.name_of(id), "key": txt(key)}));
         self.0.lock().maps.entry(id).or_default().remove(key);
         Ok(())
     }
 
     fn clear_map(&mut self, id: u64) -> Result<(), StoreError> {
+        eager_drain();
         log(json!({"e": "store", "op": "clr", "item": self.name_of(id)}));
         self.0.lock().maps.remove(&id);
         Ok(())
@@ -427,9 +431,77 @@ impl tokio::io::AsyncRead for CountingReader {
 
 static BYTES_READ: std::sync::atomic::AtomicU64 = std::sync::atomic::AtomicU64::new(0);
 
+type RespReader = FramedRead<CountingReader, RawResponseMessageDecoder>;
+/// The read ends of the remotes' response channels.  Global so that the recording store can look at
+/// what has already been sent at the very moment a store call is made (cfg "eager_store_read").
+static RXS: Mutex<Option<HashMap<u64, RespReader>>> = Mutex::new(None);
+static EAGER: std::sync::atomic::AtomicBool = std::sync::atomic::AtomicBool::new(false);
+
+/// Some(true): a frame was read and logged; Some(false): end of stream; None: nothing available.
+fn poll_frame_global(r: u64) -> Option<bool> {
+    let mut guard = RXS.lock();
+    let map = guard.as_mut()?;
+    let rx = map.get_mut(&r)?;
+    // The byte channel's cooperative budget can answer Pending (with a self wake) although data is
+    // there; a real task would simply be polled again, so poll again before concluding "nothing".
+    let mut polled = rx.next().now_or_never();
+    for _ in 0..2 {
+        if polled.is_some() {
+            break;
+        }
+        polled = rx.next().now_or_never();
+    }
+    match polled {
+        Some(Some(Ok(msg))) => {
+            let lane = msg.path.lane.to_string();
+            let node = msg.path.node.to_string();
+            let (kind, body) = match msg.envelope {
+                Notification::Linked => ("linked", None),
+                Notification::Synced => ("synced", None),
+                Notification::Unlinked(b) => ("unlinked", b.map(|b| txt(b.as_ref()))),
+                Notification::Event(b) => ("event", Some(txt(b.as_ref()))),
+            };
+            let mut e = json!({"e": "frame", "r": r, "lane": lane, "kind": kind});
+            if let Some(b) = body {
+                e["body"] = json!(b);
+            }
+            if node != NODE {
+                e["node"] = json!(node);
+            }
+            if msg.origin != AGENT_ID {
+                e["origin"] = json!(msg.origin.to_string());
+            }
+            log(e);
+            Some(true)
+        }
+        Some(Some(Err(err))) => {
+            log(json!({"e": "frame_error", "r": r, "err": err.to_string()}));
+            map.remove(&r);
+            Some(false)
+        }
+        Some(None) => {
+            log(json!({"e": "eof", "r": r}));
+            map.remove(&r);
+            Some(false)
+        }
+        None => None,
+    }
+}
+
+/// Everything that has been sent so far is read (and logged) now: used inside store calls so that a frame
+/// that left before the store call is logged before it.
+fn eager_drain() {
+    if !EAGER.load(std::sync::atomic::Ordering::Relaxed) {
+        return;
+    }
+    let ids: Vec<u64> = RXS.lock().as_ref().map(|m| m.keys().copied().collect()).unwrap_or_default();
+    for r in ids {
+        while let Some(true) = poll_frame_global(r) {}
+    }
+}
+
 struct Remote {
     tx: Option<FramedWrite<ByteWriter, RawRequestMessageEncoder>>,
-    rx: Option<FramedRead<CountingReader, RawResponseMessageDecoder>>,
     completion: promise::Receiver<DisconnectionReason>,
     closed_logged: bool,
 }
@@ -464,7 +536,19 @@ fn start_instance(cfg: &Value, store: &Option<RecordingStore>) -> Instance {
         command_msg_buffer: NonZeroUsize::new(cfg.get("cmd_buf").and_then(|v| v.as_u64()).unwrap_or(4096) as usize).unwrap(),
         ..Default::default()
     };
-    let config = CombinedAgentConfig { agent_config: AgentConfig::default(), runtime_config };
+    // small lane buffers make the agent's lane writes block, so that the agent loop interleaves further
+    // requests with a lane's pending output (sync in progress, backlog of events)
+    let mut agent_config = AgentConfig::default();
+    let buf = |k: &str| cfg.get(k).and_then(|v| v.as_u64()).and_then(|n| NonZeroUsize::new(n as usize));
+    if buf("lane_out").is_some() || buf("lane_in").is_some() {
+        let base = swimos_api::agent::LaneConfig::default();
+        agent_config.default_lane_config = Some(swimos_api::agent::LaneConfig {
+            input_buffer_size: buf("lane_in").unwrap_or(base.input_buffer_size),
+            output_buffer_size: buf("lane_out").unwrap_or(base.output_buffer_size),
+            transient: base.transient,
+        });
+    }
+    let config = CombinedAgentConfig { agent_config, runtime_config };
     let agent = AgentModel::new(TestAgent::default, TestLifecycle.into_lifecycle());
     let task = AgentRouteTask::new(
         &agent,
@@ -575,54 +659,8 @@ impl World {
         count
     }
 
-    /// Some(true): a frame was read and logged; Some(false): end of stream; None: nothing available.
     fn poll_frame(&mut self, r: u64) -> Option<bool> {
-        let rem = self.remotes.get_mut(&r)?;
-        let rx = rem.rx.as_mut()?;
-        // The byte channel's cooperative budget can answer Pending (with a self wake) although data is
-        // there; a real task would simply be polled again, so poll again before concluding "nothing".
-        let mut polled = rx.next().now_or_never();
-        for _ in 0..2 {
-            if polled.is_some() {
-                break;
-            }
-            polled = rx.next().now_or_never();
-        }
-        match polled {
-            Some(Some(Ok(msg))) => {
-                let lane = msg.path.lane.to_string();
-                let node = msg.path.node.to_string();
-                let (kind, body) = match msg.envelope {
-                    Notification::Linked => ("linked", None),
-                    Notification::Synced => ("synced", None),
-                    Notification::Unlinked(b) => ("unlinked", b.map(|b| txt(b.as_ref()))),
-                    Notification::Event(b) => ("event", Some(txt(b.as_ref()))),
-                };
-                let mut e = json!({"e": "frame", "r": r, "lane": lane, "kind": kind});
-                if let Some(b) = body {
-                    e["body"] = json!(b);
-                }
-                if node != NODE {
-                    e["node"] = json!(node);
-                }
-                if msg.origin != AGENT_ID {
-                    e["origin"] = json!(msg.origin.to_string());
-                }
-                log(e);
-                Some(true)
-            }
-            Some(Some(Err(err))) => {
-                log(json!({"e": "frame_error", "r": r, "err": err.to_string()}));
-                rem.rx = None;
-                Some(false)
-            }
-            Some(None) => {
-                log(json!({"e": "eof", "r": r}));
-                rem.rx = None;
-                Some(false)
-            }
-            None => None,
-        }
+        poll_frame_global(r)
     }
 
     fn read_targets(&mut self) -> u64 {
@@ -672,7 +710,7 @@ impl World {
             }
         }
         self.settle().await;
-        let mut drained: Vec<u64> = self.remotes.iter().filter(|(_, rem)| rem.rx.is_some()).map(|(r, _)| *r).collect();
+        let mut drained: Vec<u64> = RXS.lock().as_ref().map(|m| m.keys().copied().collect()).unwrap_or_default();
         drained.sort();
         log(json!({"e": "quiescent", "drained": drained}));
     }
@@ -743,10 +781,10 @@ async fn run_script(case: &Value) {
                 }
                 w.remotes.insert(r, Remote {
                     tx: Some(FramedWrite::new(req_tx, RawRequestMessageEncoder)),
-                    rx: Some(FramedRead::new(counting(resp_rx), RawResponseMessageDecoder)),
                     completion: comp_rx,
                     closed_logged: false,
                 });
+                RXS.lock().get_or_insert_with(HashMap::new).insert(r, FramedRead::new(counting(resp_rx), RawResponseMessageDecoder));
                 w.settle().await;
                 let attached = att_rx.now_or_never().map(|r| r.is_ok()).unwrap_or(false);
                 if !attached {
@@ -808,14 +846,16 @@ async fn run_script(case: &Value) {
                 log(json!({"e": "drop", "r": r}));
                 if let Some(rem) = w.remotes.get_mut(&r) {
                     rem.tx = None;
-                    rem.rx = None;
+                }
+                if let Some(m) = RXS.lock().as_mut() {
+                    m.remove(&r);
                 }
                 w.settle().await;
             }
             "dropread" => {
                 log(json!({"e": "dropread", "r": r}));
-                if let Some(rem) = w.remotes.get_mut(&r) {
-                    rem.rx = None;
+                if let Some(m) = RXS.lock().as_mut() {
+                    m.remove(&r);
                 }
                 w.settle().await;
             }
@@ -837,6 +877,7 @@ async fn run_script(case: &Value) {
                     w.stop_instance(false).await;
                 }
                 w.remotes.clear();
+                *RXS.lock() = None;
                 w.targets.clear();
                 log(json!({"e": "restart"}));
                 let store = w.store.clone();
@@ -888,6 +929,8 @@ async fn run_script(case: &Value) {
 
 fn run_case(case: &Value) -> Value {
     LOG.lock().clear();
+    *RXS.lock() = None;
+    EAGER.store(case["cfg"].get("eager_store_read").and_then(|v| v.as_bool()).unwrap_or(false), std::sync::atomic::Ordering::Relaxed);
     let rt = tokio::runtime::Builder::new_current_thread().enable_time().start_paused(true).build().unwrap();
     let r = std::panic::catch_unwind(std::panic::AssertUnwindSafe(|| rt.block_on(run_script(case))));
     drop(rt);
